@@ -9,7 +9,7 @@ From Coq Require Import QArith List Bool ZArith.
 From SF Require Import Base.QKernel Model.Validate Model.ValidateSpec
   Proofs.Validate_kernel Proofs.Validate_graph Proofs.Validate_proofs Proofs.Validate_translate
   Proofs.Validate_repr Proofs.Validate_sound
-  Base.GeomAST Base.Planar Base.Planar_C03 Proofs.Planar_slab_base Proofs.Validate_ogc.
+  Base.GeomAST Base.Planar Base.Planar_C03 Proofs.Planar_slab_base Proofs.Validate_ogc Proofs.Validate_jordan.
 Import ListNotations.
 Open Scope Q_scope.
 
@@ -137,12 +137,10 @@ Proof. exists f3_rings, 2%nat, 1%nat. vm_compute. auto. Qed.
 Print Assumptions polygon_validate_start_refuted.
 
 (* After fixes/F3.patch the probe is the side of the first vertex that is off the other ring.
-   polygon_validate_start_invariant is proved in this local form: if the vertices of a ring that
-   are off the other ring all lie on one side s of it (true of rings that do not cross; that
-   fact itself is the Jordan-type argument that is NOT proved here), the probe returns s for
-   every vertex list with the same vertices - any start vertex, either direction.
-   FULL STATEMENT NOT PROVED: forall rings i k, is_valid (VPoly (restart_ring i k rings)) =
-   is_valid (VPoly rings); checked by the correspondence run (repr_invariant). *)
+   General lemma: if the vertices of a ring that are off the other ring all lie on one side s of
+   it, the probe returns s for every vertex list with the same vertices.  The hypothesis
+   uniform_side is DISCHARGED below (touching_rings_one_side) for closed rings that meet in at
+   most one point; nested_probe_start_invariant is the resulting full statement. *)
 Theorem nested_probe_start_invariant_partial : forall (vs vs' : list pt) (other : list seg) (s : side),
   s <> SBoundary -> uniform_side vs other s ->
   (forall p, In p vs' <-> In p vs) ->
@@ -250,3 +248,52 @@ Example ogc_clauses_nonvacuous :
   /\ mpoly_pair_def [sq] [[(6, 6); (8, 6); (8, 8); (6, 6)]] = true
   /\ mpoly_pair_def [sq] [[(1, 1); (2, 1); (2, 2); (1, 1)]] = false.
 Proof. vm_compute. auto. Qed.
+
+(* ---------------------------------------------------------------- the nested-ring probe, fully *)
+(* The end points of a segment that does not meet a closed ring are on the same side of the ring
+   (as computed by relatePointToRing): crossing parity is constant along the segment.  No topology:
+   shear invariance of cross products + closed_ring_parity + an edge-by-edge argument. *)
+Theorem segment_avoiding_closed_ring_same_side : forall (ps : list pt) (u v : pt),
+  pts_closed ps = true ->
+  (forall z, on_seg (u, v) z = true -> on_edges (segs_of_pts ps) z = false) ->
+  relate_lines u (as_lines ps) false = relate_lines v (as_lines ps) false.
+Proof. exact relate_lines_avoiding_segment. Qed.
+Print Assumptions segment_avoiding_closed_ring_same_side.
+
+(* If a closed simple ring A and a closed ring B have at most one common point (the single-touch
+   rule, which Polygon.Validate enforces), all vertices of A that are not on B lie on the same side
+   of B.  Hypotheses as_lines _ = ring_edges _ / segs_of_pts _: no repeated consecutive vertices
+   (repeated vertices are covered by the dup / dupstart variants of the correspondence run). *)
+Theorem touching_rings_one_side : forall A B : list pt,
+  as_lines A = ring_edges A -> as_lines B = segs_of_pts B ->
+  is_closed A = true -> Simple A -> pts_closed B = true ->
+  (forall p q, on_edges (ring_edges A) p = true -> on_edges (segs_of_pts B) p = true ->
+               on_edges (ring_edges A) q = true -> on_edges (segs_of_pts B) q = true -> pt_eq p q) ->
+  forall p q, In p A -> In q A ->
+  relate_lines p (as_lines B) false <> SBoundary -> relate_lines q (as_lines B) false <> SBoundary ->
+  relate_lines p (as_lines B) false = relate_lines q (as_lines B) false.
+Proof. exact vertices_same_side. Qed.
+Print Assumptions touching_rings_one_side.
+
+(* polygon_validate_start_invariant for the nested-ring probe: under the same hypotheses the probe
+   of fixes/F3.patch returns the same side for EVERY vertex list with the same vertices as A - the
+   ring started at any other vertex, or reversed.  (False of the probe of the pinned tree:
+   polygon_validate_start_refuted.)  Not covered: invariance of the whole verdict of
+   Polygon.Validate (shell probe, touch graph) - checked by the correspondence run. *)
+Theorem nested_probe_start_invariant : forall A B : list pt,
+  as_lines A = ring_edges A -> as_lines B = segs_of_pts B ->
+  is_closed A = true -> Simple A -> pts_closed B = true ->
+  (forall p q, on_edges (ring_edges A) p = true -> on_edges (segs_of_pts B) p = true ->
+               on_edges (ring_edges A) q = true -> on_edges (segs_of_pts B) q = true -> pt_eq p q) ->
+  forall vs', (forall p, In p vs' <-> In p A) ->
+  first_off_boundary vs' (as_lines B) = first_off_boundary A (as_lines B).
+Proof. exact nested_probe_start_invariant_lemma_full. Qed.
+Print Assumptions nested_probe_start_invariant.
+Example nested_probe_invariant_nonvacuous :
+  let A := [(2, 2); (4, 3); (3, 4); (2, 2)] in
+  let B := [(2, 2); (8, 2); (8, 8); (2, 8); (2, 2)] in
+  as_lines A = ring_edges A /\ as_lines B = segs_of_pts B /\ is_closed A = true /\ is_simple A = true
+  /\ pts_closed B = true /\ inter_summary (as_lines A) (as_lines B) = ISingle (2, 2)
+  /\ first_off_boundary A (as_lines B) = SInterior
+  /\ first_off_boundary [(4, 3); (3, 4); (2, 2); (4, 3)] (as_lines B) = SInterior.
+Proof. vm_compute. repeat split; reflexivity. Qed.
